@@ -3,8 +3,11 @@
 cd "$(dirname "$0")/.."
 # each daemon-kind property builds only its own harness sub-module (VERIF_ONLY) so concurrent edits elsewhere cannot break it
 PROPS="${@:-C01 C02 C03 C04 C05 C06 C07 C08 C09 C10 C11 C12 C13 C14 C15 C16 C17 C18 C19 C20}"
+worst=0
 for p in $PROPS; do
   t0=$(date +%s); out=$(VERIF_ONLY=$(echo $p | tr A-Z a-z) ./check $p --tier thorough 2>&1); rc=$?
   echo "$p rc=$rc viol=$(echo "$out" | grep -c '^VIOLATION') wall=$(( $(date +%s) - t0 ))s | $(echo "$out" | tail -1)"
   echo "$out" | grep '^VIOLATION'
+  [ $rc -ne 0 ] && worst=1
 done
+exit $worst
